@@ -770,17 +770,26 @@ def run(st, tier, seed):
             s = systems[i % len(systems)]
             n = 2 + (i * 7 + rng.randint(0, 6)) % 7     # 2..8
             scheds.append((s, i, gen_schedule(rng, s, n)))
+        # directed: a design reads the extension-less specification X (it exists) while a sibling compile, started earlier,
+        # writes X.pil (another name; .des contents): the design must still read X, whatever the order
+        for j, s in enumerate(systems[:1 if quick else len(systems)]):
+            x = "Raw" + s["b"]
+            c1 = mk_cmd("design", x, None, struct=False, tempname="tX%d" % j); c1["delay"] = 1.5
+            c2 = mk_cmd("compile", s["main"], None, des=True, output=x + ".pil", save="sX%d.save" % j); c2["delay"] = 0.0
+            c3 = mk_cmd("finish", s["b"], None, seqs="qX%d.seqs" % j); c3["delay"] = 0.0
+            scheds.append((s, 10000 + j, [c1, c2, c3]))
+            res.count("directed:sibling-output-named-like-input-plus-extension")
         workers = max(1, min(6, ncpu // 3))
         with concurrent.futures.ThreadPoolExecutor(max_workers=workers) as ex:
             futs = [ex.submit(run_schedule, root, bindir, s, i, cmds) for (s, i, cmds) in scheds]
             sched_results = [f.result() for f in futs]
         for (s, i, cmds), r in zip(scheds, sched_results):
             judge_schedule(res, s, r)
-        res.extra["schedules"] = n_sched
+        res.extra["schedules"] = len(scheds)
         res.extra["processes_started_concurrently"] = sum(len(c) for _, _, c in scheds)
         res.extra["schedules_wall_s"] = round(time.time() - t_sched, 1)
-        res.extra["mean_concurrent_s"] = round(sum(r["t_conc"] for r in sched_results) / max(1, n_sched), 3)
-        res.extra["mean_sequential_s"] = round(sum(r["t_seq"] for r in sched_results) / max(1, n_sched), 3)
+        res.extra["mean_concurrent_s"] = round(sum(r["t_conc"] for r in sched_results) / max(1, len(scheds)), 3)
+        res.extra["mean_sequential_s"] = round(sum(r["t_seq"] for r in sched_results) / max(1, len(scheds)), 3)
 
         # ---- correspondence of the hypotheses: every pair of every schedule, plus deliberate collisions
         if st.driver_ok:
